@@ -165,6 +165,25 @@ def native_replay(path, tier="quick", timeout=300):
     return "ERROR", out[-1500:]
 
 
+def url_model_validation():
+    """native differential run: model of url.Parse/ParseQuery vs the real functions (validates an assumption)"""
+    wd = os.path.join(WORK, "urlmodel-%d" % os.getpid())
+    os.makedirs(wd, exist_ok=True)
+    tst = os.path.join(wd, "zz_vx_urlmodel_test.go")
+    shutil.copy(os.path.join(VERIF, "harness", "stun", "zz_vx_urlmodel_test.go.txt"), tst)
+    repl = {os.path.join(REPO, os.path.basename(f)): f for f in harness_files(".")}
+    repl[os.path.join(REPO, "zz_vx_urlmodel_test.go")] = tst
+    ov = os.path.join(wd, "overlay.json")
+    json.dump({"Replace": repl}, open(ov, "w"))
+    r = subprocess.run(["go", "test", "-v", "-vet=off", "-count=1", "-overlay", ov, "-run", "^TestVxURLModel$", "."], cwd=REPO, env=ENV,
+                       stdout=subprocess.PIPE, stderr=subprocess.STDOUT, text=True)
+    shutil.rmtree(wd, ignore_errors=True)
+    m = re.search(r"VX-URLMODEL: compared (\d+) inputs, (\d+) disagreements", r.stdout)
+    if not m:
+        return None, r.stdout[-800:]
+    return (int(m.group(1)), int(m.group(2))), r.stdout[-800:]
+
+
 def main():
     if len(sys.argv) >= 3 and sys.argv[1] == "--replay":
         ensure_engine()
@@ -262,6 +281,15 @@ def main():
                 inconclusive.append("%s[%s]: ENCODING-MISMATCH: solver counterexample for %r did not reproduce natively (%s %s) file=%s" % (
                     h, r.get("tags") or "release", v.get("label"), verdict, detail, v.get("replay")))
 
+    extra_cov = {}
+    if spec.get("url_model_validation"):
+        res, out = url_model_validation()
+        if res is None or res[1] != 0:
+            inconclusive.append("url-model-validation failed: the model of net/url.Parse/ParseQuery disagrees with the real functions: " + out[-400:])
+        else:
+            extra_cov["url_model_validation"] = {"inputs_compared": res[0], "disagreements": res[1]}
+            replays_done += 1
+
     # keep confirmed counterexamples under /verif/replays/<id>/
     final_viol = []
     rdir = os.path.join(VERIF, "replays", pid)
@@ -272,7 +300,7 @@ def main():
         final_viol.append((r, v, dst))
 
     wall = time.time() - t0
-    write_evidence(pid, tier, seed, spec, results, final_viol, known_hits, inconclusive, selftests_ok, replays_done, wall)
+    write_evidence(pid, tier, seed, spec, results, final_viol, known_hits, inconclusive, selftests_ok, replays_done, wall, extra_cov)
     shutil.rmtree(outdir, ignore_errors=True)
 
     seen = set()
@@ -309,7 +337,7 @@ def native_replay_pkg(v, r, tier):
     return native_replay(p, tier)
 
 
-def write_evidence(pid, tier, seed, spec, results, viol, known_hits, inconclusive, selftests_ok, replays_done, wall):
+def write_evidence(pid, tier, seed, spec, results, viol, known_hits, inconclusive, selftests_ok, replays_done, wall, extra_cov=None):
     samples = []
     obligations = 0
     distinct = 0
@@ -350,6 +378,7 @@ def write_evidence(pid, tier, seed, spec, results, viol, known_hits, inconclusiv
         "inconclusive": inconclusive,
         "exhaustive": bool(spec.get("exhaustive", False)),
     }
+    cov.update(extra_cov or {})
     ev = {
         "property_id": pid, "tier": tier, "seed": seed, "level": spec.get("level", "model_checking"),
         "coverage": cov,
